@@ -347,7 +347,7 @@ def run(chk):
             top = 200
             if not neu:
                 top = {'Se': 8, 'Fe': 40}.get(el, 200)
-            ns = sorted(set([0, 1, 2, 3, 5, 12, top] + [rng.randint(0, top) for _ in range(2 if quick else 10)]))
+            ns = sorted(set([0, 1, 2, 3, 5, 12, top] + [rng.randint(0, top) for _ in range(1 if quick else 10)]))
             for n in ns:
                 ecases.append((el, n, neu))
 
@@ -368,7 +368,7 @@ def run(chk):
     tick('round/conv/elem')
     # ---------------------------------------------------------------- (d) isotopic_distribution
     cap = 600 if quick else 2500
-    n_iso = 260 if quick else 5000
+    n_iso = 170 if quick else 5000
     cases = list(corpus)
     for i in range(n_iso):
         o = gen_opts(rng, constants)
@@ -538,7 +538,7 @@ def run(chk):
             small.append(tuple(comb.count(j) for j in range(6)))
     chk.notes.append(f'exact multinomial TEST: {len(small)} compositions over C,H,N,O,S,P with <= 12 atoms exist')
     if quick:
-        sel = rng.sample(small, 400)
+        sel = rng.sample(small, 250)
     else:
         sel = small
         chk.exhaustive = True
@@ -622,7 +622,7 @@ def run(chk):
     # ---------------------------------------------------------------- oracle: every clause on the real code
     big = chk.broken()
     ocases = list(cases)
-    extra = (300 if quick else 6000) * (3 if big else 1)
+    extra = (200 if quick else 6000) * (3 if big else 1)
     for _ in range(extra):
         o = gen_opts(rng, constants)
         if rng.random() < 0.6:
